@@ -1,4 +1,8 @@
-(* DedupProofs.v — lemmas and proofs about Model/Dedup.v (property C18). *)
+(* DedupProofs.v — lemmas and proofs about Model/Dedup.v (property C18).
+   The file grew with the code: sections up to the marker "the repaired variant" are general list / geometry / dict
+   lemmas and the proofs about the functions suffixed _old (the code before commits d09ab94, f2650a0, 983bf94; their
+   theorems, named *_old or old_*, record what each repaired defect was: regression witnesses only).  Everything after
+   that marker is about the code at HEAD; Properties/C18.v states only those. *)
 From Coq Require Import List String Ascii ZArith QArith Qabs Bool Lia.
 From MPV Require Import Model.Wire Model.Dedup.
 Import ListNotations.
@@ -137,7 +141,7 @@ Qed.
 (* what a cell's geometry becomes: every leaf that is in cell.surfaces and is a key of the map is renamed *)
 Definition cell_ren (m : list (Z * Z)) (c : cell) : Z -> Z := ren (restrict (c_surfs c) m).
 
-Lemma cell_dedup_geom : forall m c,
+Lemma cell_dedup_old_geom : forall m c,
   c_geom (cell_dedup_old m c) = map_leaves (cell_ren m c) (c_geom c).
 Proof.
   intros m c. unfold cell_dedup_old, cell_ren.
@@ -146,7 +150,7 @@ Proof.
   - simpl. apply hs_dedup_spec.
 Qed.
 
-Lemma cell_dedup_num : forall m c, c_num (cell_dedup_old m c) = c_num c.
+Lemma cell_dedup_old_num : forall m c, c_num (cell_dedup_old m c) = c_num c.
 Proof. intros m c. unfold cell_dedup_old. destruct (restrict (c_surfs c) m); reflexivity. Qed.
 
 Lemma cell_ren_cases : forall m c n,
@@ -227,26 +231,26 @@ Proof.
     + intros [[->|H1] H2]; [congruence | auto].
 Qed.
 
-Lemma find_dups_spec : forall tol s all ms,
+Lemma find_dups_old_spec : forall tol s all ms,
   find_dups_old tol s all = Ok ms -> forall x, In x ms <-> In x all /\ candidate_old tol s x = Ok true.
 Proof. intros tol s all ms H. exact (filter_res_spec _ _ _ H). Qed.
 
-Lemma candidate_same_kind : forall tol a b, candidate_old tol a b = Ok true -> same_kind a b = true.
+Lemma candidate_old_same_kind : forall tol a b, candidate_old tol a b = Ok true -> same_kind a b = true.
 Proof.
   intros tol a b. unfold candidate_old.
   destruct (periodic_old a); [discriminate|].
   destruct (same_kind a b); [reflexivity | simpl; discriminate].
 Qed.
 
-Lemma candidate_num_neq : forall tol a b, candidate_old tol a b = Ok true -> s_num b <> s_num a.
+Lemma candidate_old_num_neq : forall tol a b, candidate_old tol a b = Ok true -> s_num b <> s_num a.
 Proof.
-  intros tol a b H. apply candidate_same_kind in H. unfold same_kind in H.
+  intros tol a b H. apply candidate_old_same_kind in H. unfold same_kind in H.
   apply andb_true_iff in H. destruct H as [H _]. apply negb_true_iff in H. apply Z.eqb_neq in H. exact H.
 Qed.
 
-Lemma candidate_type_eq : forall tol a b, candidate_old tol a b = Ok true -> s_type b = s_type a.
+Lemma candidate_old_type_eq : forall tol a b, candidate_old tol a b = Ok true -> s_type b = s_type a.
 Proof.
-  intros tol a b H. apply candidate_same_kind in H. unfold same_kind in H.
+  intros tol a b H. apply candidate_old_same_kind in H. unfold same_kind in H.
   apply andb_true_iff in H. destruct H as [_ H]. apply String.eqb_eq in H. exact H.
 Qed.
 
@@ -256,14 +260,14 @@ Section Scan.
   Variable all : list surface.
 
   (* keys of the map = to_delete; every entry is justified by a positive test of the code *)
-  Definition inv_basic (del : list Z) (m : list (Z * Z)) : Prop :=
+  Definition inv_basic_old (del : list Z) (m : list (Z * Z)) : Prop :=
     (forall n, In n del <-> lookup n m <> None) /\
     (forall d s, lookup d m = Some s ->
        exists sd ss, In sd all /\ In ss all /\ s_num sd = d /\ s_num ss = s /\ candidate_old tol ss sd = Ok true).
 
-  Lemma inv_basic_step : forall s ms del m,
-    In s all -> find_dups_old tol s all = Ok ms -> inv_basic del m ->
-    inv_basic (fst (record_matches (map s_num ms) (s_num s) del m))
+  Lemma inv_basic_old_step : forall s ms del m,
+    In s all -> find_dups_old tol s all = Ok ms -> inv_basic_old del m ->
+    inv_basic_old (fst (record_matches (map s_num ms) (s_num s) del m))
               (snd (record_matches (map s_num ms) (s_num s) del m)).
   Proof.
     intros s ms del m Hs Hf [Hk Hj]. split.
@@ -274,13 +278,13 @@ Section Scan.
     - intros d v. rewrite record_matches_lookup.
       destruct (memZ d (map s_num ms)) eqn:E.
       + intro H. inversion H; subst v; clear H. apply memZ_In in E. apply in_map_iff in E.
-        destruct E as [x [Hx Hin]]. apply (find_dups_spec _ _ _ _ Hf) in Hin. destruct Hin as [Hxa Hc].
+        destruct E as [x [Hx Hin]]. apply (find_dups_old_spec _ _ _ _ Hf) in Hin. destruct Hin as [Hxa Hc].
         exists x, s. auto.
       + apply Hj.
   Qed.
 
-  Lemma scan_loop_inv_basic : forall todo del m del' m',
-    incl todo all -> inv_basic del m -> scan_loop_old tol all todo del m = Ok (del', m') -> inv_basic del' m'.
+  Lemma scan_loop_old_inv_basic : forall todo del m del' m',
+    incl todo all -> inv_basic_old del m -> scan_loop_old tol all todo del m = Ok (del', m') -> inv_basic_old del' m'.
   Proof.
     induction todo as [|s r IH]; intros del m del' m' Hincl Hinv H; simpl in H.
     - inversion H; subst. exact Hinv.
@@ -290,28 +294,28 @@ Section Scan.
       + destruct (find_dups_old tol s all) as [ms|] eqn:Hf; [|discriminate].
         destruct (record_matches (map s_num ms) (s_num s) del m) as [d1 m1] eqn:Hrm.
         eapply IH; [exact Hr | | exact H].
-        pose proof (inv_basic_step s ms del m (Hincl s (or_introl eq_refl)) Hf Hinv) as Hstep.
+        pose proof (inv_basic_old_step s ms del m (Hincl s (or_introl eq_refl)) Hf Hinv) as Hstep.
         rewrite Hrm in Hstep. exact Hstep.
   Qed.
 
-  Lemma scan_inv_basic : forall del m, scan_old tol all = Ok (del, m) -> inv_basic del m.
+  Lemma scan_old_inv_basic : forall del m, scan_old tol all = Ok (del, m) -> inv_basic_old del m.
   Proof.
     intros del m H. unfold scan_old in H.
-    eapply scan_loop_inv_basic; [apply incl_refl | | exact H].
+    eapply scan_loop_old_inv_basic; [apply incl_refl | | exact H].
     split; [intro n; simpl; split; [tauto | intro H0; apply H0; reflexivity] | intros d s H0; discriminate].
   Qed.
 
   (* --- no survivor is itself removed, provided the test of the code is symmetric *)
-  Definition cand_sym : Prop :=
+  Definition cand_sym_old : Prop :=
     forall a b, In a all -> In b all -> candidate_old tol a b = Ok true -> candidate_old tol b a = Ok true.
 
-  Definition inv_chain (del : list Z) (m : list (Z * Z)) : Prop :=
+  Definition inv_chain_old (del : list Z) (m : list (Z * Z)) : Prop :=
     (forall d s, lookup d m = Some s -> ~ In s del) /\
     (forall d ss, In ss all -> lookup d m = Some (s_num ss) ->
        forall x, In x all -> candidate_old tol ss x = Ok true -> In (s_num x) del).
 
   Hypothesis Hnodup : NoDup (map s_num all).
-  Hypothesis Hsym : cand_sym.
+  Hypothesis Hsym : cand_sym_old.
 
   Lemma same_num_same_surface : forall a b, In a all -> In b all -> s_num a = s_num b -> a = b.
   Proof.
@@ -324,20 +328,20 @@ Section Scan.
     - apply IH; assumption.
   Qed.
 
-  Lemma inv_chain_step : forall s ms del m,
-    In s all -> ~ In (s_num s) del -> find_dups_old tol s all = Ok ms -> inv_chain del m ->
-    inv_chain (fst (record_matches (map s_num ms) (s_num s) del m))
+  Lemma inv_chain_old_step : forall s ms del m,
+    In s all -> ~ In (s_num s) del -> find_dups_old tol s all = Ok ms -> inv_chain_old del m ->
+    inv_chain_old (fst (record_matches (map s_num ms) (s_num s) del m))
               (snd (record_matches (map s_num ms) (s_num s) del m)).
   Proof.
     intros s ms del m Hs Hnd Hf [Hv Hw].
     assert (Hms : forall x, In x ms <-> In x all /\ candidate_old tol s x = Ok true)
-      by (apply find_dups_spec; exact Hf).
+      by (apply find_dups_old_spec; exact Hf).
     split.
     - intros d v. rewrite record_matches_lookup, record_matches_del.
       destruct (memZ d (map s_num ms)) eqn:E.
       + intro H. inversion H; subst v; clear H. intros [H|H]; [exact (Hnd H)|].
         apply in_map_iff in H. destruct H as [x [Hx Hin]]. apply Hms in Hin. destruct Hin as [_ Hc].
-        apply candidate_num_neq in Hc. congruence.
+        apply candidate_old_num_neq in Hc. congruence.
       + intros Hl [H|H]; [exact (Hv _ _ Hl H)|].
         apply in_map_iff in H. destruct H as [x [Hx Hin]]. apply Hms in Hin. destruct Hin as [Hxa Hc].
         (* x is matched by s now, and x (number v) is the survivor of an earlier entry *)
@@ -351,8 +355,8 @@ Section Scan.
       + intros Hl x Hx Hc. apply record_matches_del. left. exact (Hw d ss Hss Hl x Hx Hc).
   Qed.
 
-  Lemma scan_loop_inv_chain : forall todo del m del' m',
-    incl todo all -> inv_chain del m -> scan_loop_old tol all todo del m = Ok (del', m') -> inv_chain del' m'.
+  Lemma scan_loop_old_inv_chain : forall todo del m del' m',
+    incl todo all -> inv_chain_old del m -> scan_loop_old tol all todo del m = Ok (del', m') -> inv_chain_old del' m'.
   Proof.
     induction todo as [|s r IH]; intros del m del' m' Hincl Hinv H; simpl in H.
     - inversion H; subst. exact Hinv.
@@ -363,14 +367,14 @@ Section Scan.
         destruct (record_matches (map s_num ms) (s_num s) del m) as [d1 m1] eqn:Hrm.
         eapply IH; [exact Hr | | exact H].
         apply memZ_false in Hmem.
-        pose proof (inv_chain_step s ms del m (Hincl s (or_introl eq_refl)) Hmem Hf Hinv) as Hstep.
+        pose proof (inv_chain_old_step s ms del m (Hincl s (or_introl eq_refl)) Hmem Hf Hinv) as Hstep.
         rewrite Hrm in Hstep. exact Hstep.
   Qed.
 
-  Lemma scan_inv_chain : forall del m, scan_old tol all = Ok (del, m) -> inv_chain del m.
+  Lemma scan_old_inv_chain : forall del m, scan_old tol all = Ok (del, m) -> inv_chain_old del m.
   Proof.
     intros del m H. unfold scan_old in H.
-    eapply scan_loop_inv_chain; [apply incl_refl | | exact H].
+    eapply scan_loop_old_inv_chain; [apply incl_refl | | exact H].
     split; [intros d s H0; discriminate | intros d ss _ H0; discriminate].
   Qed.
 End Scan.
@@ -499,7 +503,7 @@ Proof.
 Qed.
 
 (* ========================================================================= the whole call, decomposed *)
-Lemma dedup_inv : forall tol P P',
+Lemma dedup_old_inv : forall tol P P',
   dedup_old tol P = Ok P' ->
   exists del m surfs2,
     scan_old tol (p_surfs P) = Ok (del, m) /\
@@ -534,7 +538,7 @@ Definition links (P : problem) : Prop :=
 Definition wf (P : problem) : Prop := NoDup (map s_num (p_surfs P)).
 
 (* --- every cell, structurally: a leaf-wise renaming that only touches keys of the map *)
-Theorem cells_structure : forall tol P P' del m,
+Theorem cells_structure_old : forall tol P P' del m,
   scan_old tol (p_surfs P) = Ok (del, m) -> dedup_old tol P = Ok P' ->
   Forall2 (fun c c' =>
              c_num c' = c_num c /\
@@ -544,41 +548,41 @@ Theorem cells_structure : forall tol P P' del m,
                        c_geom c' = map_leaves f (c_geom c))
           (p_cells P) (p_cells P').
 Proof.
-  intros tol P P' del m Hs Hd. apply dedup_inv in Hd. destruct Hd as [del' [m' [s2 [Hs' [_ ->]]]]].
+  intros tol P P' del m Hs Hd. apply dedup_old_inv in Hd. destruct Hd as [del' [m' [s2 [Hs' [_ ->]]]]].
   rewrite Hs in Hs'. inversion Hs'; subst del' m'. simpl. rewrite map_map.
   apply Forall2_map_both. intros c _. split.
-  - simpl. apply cell_dedup_num.
+  - simpl. apply cell_dedup_old_num.
   - exists (cell_ren m c). repeat split.
     + apply cell_ren_not_key.
     + apply cell_ren_cases.
     + apply cell_ren_linked.
-    + simpl. apply cell_dedup_geom.
+    + simpl. apply cell_dedup_old_geom.
 Qed.
 
 (* --- the region of every cell is unchanged once merged surfaces are identified *)
-Theorem region_preserved : forall tol P P' del m,
+Theorem region_preserved_old : forall tol P P' del m,
   scan_old tol (p_surfs P) = Ok (del, m) -> dedup_old tol P = Ok P' ->
   Forall2 (fun c c' =>
              c_num c' = c_num c /\
              forall es ec, identifies m es -> region es ec (c_geom c') = region es ec (c_geom c))
           (p_cells P) (p_cells P').
 Proof.
-  intros tol P P' del m Hs Hd. pose proof (cells_structure _ _ _ _ _ Hs Hd) as H.
+  intros tol P P' del m Hs Hd. pose proof (cells_structure_old _ _ _ _ _ Hs Hd) as H.
   eapply Forall2_imp; [|exact H]. intros c c' [Hn [f [_ [Hc [_ Hg]]]]]. split; [exact Hn|].
   intros es ec Hid. rewrite Hg, region_map_leaves. apply region_ext. intros n _.
   destruct (Hc n) as [E|E]; [rewrite E; reflexivity | symmetry; apply Hid; exact E].
 Qed.
 
 (* --- senses and operators are never changed; a cell without a removed leaf is not changed at all *)
-Theorem senses_preserved : forall tol P P' del m,
+Theorem senses_preserved_old : forall tol P P' del m,
   scan_old tol (p_surfs P) = Ok (del, m) -> dedup_old tol P = Ok P' ->
   Forall2 (fun c c' =>
              shape (c_geom c') = shape (c_geom c) /\
              ((forall n, In n (leaf_surfs (c_geom c)) -> ~ In n del) -> c_geom c' = c_geom c))
           (p_cells P) (p_cells P').
 Proof.
-  intros tol P P' del m Hs Hd. pose proof (cells_structure _ _ _ _ _ Hs Hd) as H.
-  pose proof (scan_inv_basic _ _ _ _ Hs) as [Hk _].
+  intros tol P P' del m Hs Hd. pose proof (cells_structure_old _ _ _ _ _ Hs Hd) as H.
+  pose proof (scan_old_inv_basic _ _ _ _ Hs) as [Hk _].
   eapply Forall2_imp; [|exact H]. intros c c' [Hn [f [Hnk [_ [_ Hg]]]]]. split.
   - rewrite Hg. apply shape_map_leaves.
   - intro Hno. rewrite Hg. apply map_leaves_id. intros n Hin. apply Hnk.
@@ -586,12 +590,12 @@ Proof.
 Qed.
 
 (* --- removed surfaces are gone from the collection; survivors keep their relative order *)
-Theorem removed_are_gone : forall tol P P' del m,
+Theorem removed_are_gone_old : forall tol P P' del m,
   wf P -> scan_old tol (p_surfs P) = Ok (del, m) -> dedup_old tol P = Ok P' ->
   (forall s', In s' (p_surfs P') -> ~ In (s_num s') del) /\
   map s_num (p_surfs P') = filter (fun n => negb (memZ n del)) (map s_num (p_surfs P)).
 Proof.
-  intros tol P P' del m Hwf Hs Hd. apply dedup_inv in Hd. destruct Hd as [del' [m' [s2 [Hs' [Hm ->]]]]].
+  intros tol P P' del m Hwf Hs Hd. apply dedup_old_inv in Hd. destruct Hd as [del' [m' [s2 [Hs' [Hm ->]]]]].
   rewrite Hs in Hs'. inversion Hs'; subst del' m'. simpl.
   pose proof (sup_nums _ _ _ _ Hm) as Hn.
   assert (Hnd : NoDup (map s_num s2)) by (rewrite Hn; exact Hwf).
@@ -603,27 +607,27 @@ Proof.
 Qed.
 
 (* --- surfaces that are not removed are untouched when the old numbers are in sync *)
-Theorem survivors_untouched : forall tol P P' del m,
+Theorem old_survivors_untouched_partial : forall tol P P' del m,
   wf P -> (forall s, In s (p_surfs P) -> in_sync (p_surfs P) (p_trs P) s) ->
   scan_old tol (p_surfs P) = Ok (del, m) -> dedup_old tol P = Ok P' ->
   p_surfs P' = filter (fun s => negb (memZ (s_num s) del)) (p_surfs P).
 Proof.
-  intros tol P P' del m Hwf Hsync Hs Hd. apply dedup_inv in Hd. destruct Hd as [del' [m' [s2 [Hs' [Hm ->]]]]].
+  intros tol P P' del m Hwf Hsync Hs Hd. apply dedup_old_inv in Hd. destruct Hd as [del' [m' [s2 [Hs' [Hm ->]]]]].
   rewrite Hs in Hs'. inversion Hs'; subst del' m'. simpl.
   rewrite map_res_id in Hm by (intros x Hx; apply in_sync_fix; apply Hsync; exact Hx).
   inversion Hm; subst s2. apply remove_all_filter. exact Hwf.
 Qed.
 
 (* --- no leaf refers to a removed surface: needs cell.surfaces to cover the leaves and a symmetric test *)
-Theorem no_dangling_leaf : forall tol P P' del m,
-  wf P -> links P -> cand_sym tol (p_surfs P) ->
+Theorem no_dangling_leaf_old : forall tol P P' del m,
+  wf P -> links P -> cand_sym_old tol (p_surfs P) ->
   scan_old tol (p_surfs P) = Ok (del, m) -> dedup_old tol P = Ok P' ->
   forall c', In c' (p_cells P') -> forall n, In n (leaf_surfs (c_geom c')) -> ~ In n del.
 Proof.
   intros tol P P' del m Hwf Hl Hsym Hs Hd c' Hc' n Hn.
-  pose proof (cells_structure _ _ _ _ _ Hs Hd) as H.
-  pose proof (scan_inv_basic _ _ _ _ Hs) as [Hk _].
-  pose proof (scan_inv_chain _ _ Hwf Hsym _ _ Hs) as [Hv _].
+  pose proof (cells_structure_old _ _ _ _ _ Hs Hd) as H.
+  pose proof (scan_old_inv_basic _ _ _ _ Hs) as [Hk _].
+  pose proof (scan_old_inv_chain _ _ Hwf Hsym _ _ Hs) as [Hv _].
   assert (Hex : exists c, In c (p_cells P) /\
             exists f, (forall n, In n (c_surfs c) -> f n = ren m n) /\ c_geom c' = map_leaves f (c_geom c)).
   { clear - H Hc'. induction H; [destruct Hc'|]. destruct Hc' as [<-|Hc'].
@@ -758,7 +762,7 @@ Qed.
 Lemma length_nil_iff : forall {A} (l l' : list A), List.length l = List.length l' -> (l = [] <-> l' = []).
 Proof. intros A l l' H. destruct l, l'; simpl in *; split; intro; try discriminate; reflexivity. Qed.
 
-Lemma tr_equiv_same : forall tol t t',
+Lemma tr_equiv_old_same : forall tol t t',
   tr_shape_eq t t' -> (0 < tol)%Q -> tr_equivalent_old tol t t' = Ok true -> trdata_same tol (Some t) (Some t').
 Proof.
   intros tol t t' [Hd Hr] Hpos H. unfold tr_equivalent_old in H. simpl.
@@ -774,7 +778,7 @@ Proof.
     apply vec_loop_within; assumption.
 Qed.
 
-Lemma tr_equiv_sym : forall tol t t',
+Lemma tr_equiv_old_sym : forall tol t t',
   tr_shape_eq t t' -> tr_equivalent_old tol t t' = Ok true -> tr_equivalent_old tol t' t = Ok true.
 Proof.
   intros tol t t' [Hd Hr] H. unfold tr_equivalent_old in *.
@@ -789,7 +793,7 @@ Proof.
     apply vec_loop_sym; assumption.
 Qed.
 
-Lemma tr_equiv_total : forall tol t t', tr_shape_eq t t' -> exists b, tr_equivalent_old tol t t' = Ok b.
+Lemma tr_equiv_old_total : forall tol t t', tr_shape_eq t t' -> exists b, tr_equivalent_old tol t t' = Ok b.
 Proof.
   intros tol t t' [Hd Hr]. unfold tr_equivalent_old.
   destruct (negb (Bool.eqb (t_deg t) (t_deg t'))); [eexists; reflexivity|].
@@ -820,17 +824,17 @@ Proof. intros A [|x [|y l]] H; simpl in H; try discriminate. exists x; reflexivi
 Lemma length3 : forall {A} (l : list A), List.length l = 3%nat -> exists x y z, l = [x; y; z].
 Proof. intros A [|x [|y [|z [|w l]]]] H; simpl in H; try discriminate. exists x, y, z; reflexivity. Qed.
 
-Lemma tr_check_same : forall tol a b,
+Lemma tr_check_old_same : forall tol a b,
   (forall t t', s_tr a = Some t -> s_tr b = Some t' -> tr_shape_eq t t') -> (0 < tol)%Q ->
   tr_check_old tol a b = Ok true -> trdata_same tol (s_tr a) (s_tr b).
 Proof.
   intros tol a b Hsh Hpos H. unfold tr_check_old in H.
   destruct (s_tr a) as [t|], (s_tr b) as [t'|]; try discriminate.
-  - apply tr_equiv_same; auto.
+  - apply tr_equiv_old_same; auto.
   - exact I.
 Qed.
 
-Lemma candidate_true_dup : forall tol a b,
+Lemma candidate_old_true_dup : forall tol a b,
   class_ok a -> class_ok b ->
   (s_type a = s_type b -> s_refl a = s_refl b /\ s_white a = s_white b) ->
   periodic_visible a -> periodic_visible b ->
@@ -838,7 +842,7 @@ Lemma candidate_true_dup : forall tol a b,
   candidate_old tol a b = Ok true -> true_dup tol a b.
 Proof.
   intros tol a b [Hca Haa] [Hcb Hab] Hbc Hpa Hpb Hsh H.
-  pose proof (candidate_type_eq _ _ _ H) as Hty. symmetry in Hty.
+  pose proof (candidate_old_type_eq _ _ _ H) as Hty. symmetry in Hty.
   assert (Hcl : s_class b = s_class a) by (rewrite Hca, Hcb, Hty; reflexivity).
   destruct (Hbc Hty) as [Hrf Hwh].
   unfold candidate_old in H.
@@ -852,7 +856,7 @@ Proof.
     destruct (length1 _ Haa) as [x Hx]. destruct (length1 _ Hab) as [y Hy].
     rewrite (cnst_single _ _ Hx), (cnst_single _ _ Hy) in En.
     repeat split; auto.
-    + apply tr_check_same; auto.
+    + apply tr_check_old_same; auto.
     + destruct Hpa as [Hp|[Hp|[Hp _]]]; [exact Hp | congruence | congruence].
     + destruct Hpb as [Hp|[Hp|[Hp _]]]; [exact Hp | congruence | congruence].
     + rewrite Hx, Hy. constructor; [apply near_lt; exact En | constructor].
@@ -863,7 +867,7 @@ Proof.
     destruct (length1 _ Haa) as [x Hx]. destruct (length1 _ Hab) as [y Hy].
     rewrite (cnst_single _ _ Hx), (cnst_single _ _ Hy) in En.
     repeat split; auto.
-    + apply tr_check_same; auto.
+    + apply tr_check_old_same; auto.
     + destruct Hpa as [Hp|[Hp|[_ Hp]]]; [exact Hp | congruence | contradiction].
     + destruct Hpb as [Hp|[Hp|[_ Hp]]]; [exact Hp | congruence | contradiction].
     + rewrite Hx, Hy. constructor; [apply near_lt; exact En | constructor].
@@ -875,28 +879,28 @@ Proof.
     destruct (length3 _ Haa) as [x0 [x1 [x2 Hx]]]. destruct (length3 _ Hab) as [y0 [y1 [y2 Hy]]].
     unfold cnst in E0, E1, E2. rewrite Hx, Hy in E0, E1, E2. simpl in E0, E1, E2.
     repeat split; auto.
-    + apply tr_check_same; auto.
+    + apply tr_check_old_same; auto.
     + destruct Hpa as [Hp|[Hp|[Hp _]]]; [exact Hp | congruence | congruence].
     + destruct Hpb as [Hp|[Hp|[Hp _]]]; [exact Hp | congruence | congruence].
     + rewrite Hx, Hy. repeat constructor; apply near_lt; assumption.
   - discriminate.
 Qed.
 
-Lemma tr_check_sym : forall tol a b,
+Lemma tr_check_old_sym : forall tol a b,
   (forall t t', s_tr a = Some t -> s_tr b = Some t' -> tr_shape_eq t t') ->
   tr_check_old tol a b = Ok true -> tr_check_old tol b a = Ok true.
 Proof.
   intros tol a b Hsh H. unfold tr_check_old in *.
   destruct (s_tr a) as [t|], (s_tr b) as [t'|]; try discriminate; [|reflexivity].
-  apply tr_equiv_sym; auto.
+  apply tr_equiv_old_sym; auto.
 Qed.
 
-Lemma cand_sym_struct : forall tol all,
-  Forall class_ok all -> planes_old_nonperiodic all -> tr_uniform all -> cand_sym tol all.
+Lemma cand_sym_old_struct : forall tol all,
+  Forall class_ok all -> planes_old_nonperiodic all -> tr_uniform all -> cand_sym_old tol all.
 Proof.
   intros tol all Hok Hpl Htr a b Ha Hb H.
   rewrite Forall_forall in Hok. destruct (Hok a Ha) as [Hca _]. destruct (Hok b Hb) as [Hcb _].
-  pose proof (candidate_type_eq _ _ _ H) as Hty.
+  pose proof (candidate_old_type_eq _ _ _ H) as Hty.
   assert (Hcl : s_class b = s_class a) by (rewrite Hca, Hcb, Hty; reflexivity).
   assert (Hsh : forall t t', s_tr a = Some t -> s_tr b = Some t' -> tr_shape_eq t t')
     by (intros t t' H1 H2; exact (Htr a b t t' Ha Hb H1 H2)).
@@ -906,20 +910,20 @@ Proof.
   rewrite Hcl. destruct (s_class a) eqn:Ecl.
   - assert (Epb : periodic_old b = false) by (apply periodic_old_false; apply Hpl; [exact Hb | left; congruence]).
     rewrite Epb. rewrite (near_sym tol (cnst b 0)).
-    destruct (near tol (cnst a 0) (cnst b 0)); [|discriminate]. apply tr_check_sym; assumption.
+    destruct (near tol (cnst a 0) (cnst b 0)); [|discriminate]. apply tr_check_old_sym; assumption.
   - destruct (periodic_old b) eqn:Epb; [discriminate|].
     rewrite (near_sym tol (cnst b 0)).
-    destruct (near tol (cnst a 0) (cnst b 0)); [|discriminate]. apply tr_check_sym; assumption.
+    destruct (near tol (cnst a 0) (cnst b 0)); [|discriminate]. apply tr_check_old_sym; assumption.
   - assert (Epb : periodic_old b = false) by (apply periodic_old_false; apply Hpl; [exact Hb | right; congruence]).
     rewrite Epb. rewrite (near_sym tol (cnst b 2)), (near_sym tol (cnst b 0)), (near_sym tol (cnst b 1)).
     destruct (near tol (cnst a 2) (cnst b 2) && near tol (cnst a 0) (cnst b 0) && near tol (cnst a 1) (cnst b 1));
       [|discriminate].
-    apply tr_check_sym; assumption.
+    apply tr_check_old_sym; assumption.
   - discriminate.
 Qed.
 
 (* ========================================================================= only true duplicates are merged *)
-Theorem only_true_duplicates_partial : forall tol P del m,
+Theorem old_only_true_duplicates_partial : forall tol P del m,
   wf P -> Forall class_ok (p_surfs P) ->
   bc_uniform (p_surfs P) -> Forall periodic_visible (p_surfs P) -> tr_uniform (p_surfs P) ->
   scan_old tol (p_surfs P) = Ok (del, m) ->
@@ -927,24 +931,24 @@ Theorem only_true_duplicates_partial : forall tol P del m,
     In sd (p_surfs P) -> In ss (p_surfs P) -> s_num sd = d -> s_num ss = s -> true_dup tol ss sd.
 Proof.
   intros tol P del m Hwf Hok Hbc Hper Htr Hs d s sd ss Hl Hsd Hss Hd Hn.
-  pose proof (scan_inv_basic _ _ _ _ Hs) as [_ Hj].
+  pose proof (scan_old_inv_basic _ _ _ _ Hs) as [_ Hj].
   destruct (Hj d s Hl) as [sd' [ss' [Hsd' [Hss' [Hd' [Hn' Hc]]]]]].
   assert (sd' = sd) by (apply (same_num_same_surface (p_surfs P) Hwf); auto; congruence).
   assert (ss' = ss) by (apply (same_num_same_surface (p_surfs P) Hwf); auto; congruence).
   subst sd' ss'. rewrite Forall_forall in Hok, Hper.
-  apply candidate_true_dup; auto.
+  apply candidate_old_true_dup; auto.
   intros t t' H1 H2. exact (Htr ss sd t t' Hss Hsd H1 H2).
 Qed.
 
 (* ========================================================================= the call completes *)
-Lemma candidate_total : forall tol a b,
+Lemma candidate_old_total : forall tol a b,
   (forall t t', s_tr a = Some t -> s_tr b = Some t' -> tr_shape_eq t t') ->
   exists r, candidate_old tol a b = Ok r.
 Proof.
   intros tol a b Hsh. unfold candidate_old.
   assert (Ht : exists r, tr_check_old tol a b = Ok r).
   { unfold tr_check_old. destruct (s_tr a) as [t|], (s_tr b) as [t'|]; try (eexists; reflexivity).
-    apply tr_equiv_total. apply Hsh; reflexivity. }
+    apply tr_equiv_old_total. apply Hsh; reflexivity. }
   destruct (periodic_old a); [eexists; reflexivity|].
   destruct (negb (same_kind a b)); [eexists; reflexivity|].
   destruct (s_class a).
@@ -964,25 +968,25 @@ Proof.
   destruct IH as [r Hr]; [intros x Hx; apply H; right; exact Hx|]. rewrite Hr. eexists; reflexivity.
 Qed.
 
-Lemma scan_loop_total : forall tol all todo del m,
+Lemma scan_loop_old_total : forall tol all todo del m,
   tr_uniform all -> incl todo all -> exists r, scan_loop_old tol all todo del m = Ok r.
 Proof.
   intros tol all. induction todo as [|s r IH]; intros del m Htr Hincl; simpl; [eexists; reflexivity|].
   assert (Hr : incl r all) by (intros x Hx; apply Hincl; right; exact Hx).
   destruct (memZ (s_num s) del); [apply IH; assumption|].
   assert (Hf : exists ms, find_dups_old tol s all = Ok ms).
-  { apply filter_res_total. intros x Hx. apply candidate_total. intros t t' H1 H2.
+  { apply filter_res_total. intros x Hx. apply candidate_old_total. intros t t' H1 H2.
     exact (Htr s x t t' (Hincl s (or_introl eq_refl)) Hx H1 H2). }
   destruct Hf as [ms Hms]. rewrite Hms.
   destruct (record_matches (map s_num ms) (s_num s) del m) as [d1 m1]. apply IH; assumption.
 Qed.
 
-Theorem dedup_completes : forall tol P,
+Theorem dedup_completes_old : forall tol P,
   tr_uniform (p_surfs P) -> (forall s, In s (p_surfs P) -> in_sync (p_surfs P) (p_trs P) s) ->
   exists P', dedup_old tol P = Ok P'.
 Proof.
   intros tol P Htr Hsync. unfold dedup_old.
-  destruct (scan_loop_total tol (p_surfs P) (p_surfs P) [] [] Htr (incl_refl _)) as [[del m] Hs].
+  destruct (scan_loop_old_total tol (p_surfs P) (p_surfs P) [] [] Htr (incl_refl _)) as [[del m] Hs].
   unfold scan_old. rewrite Hs.
   rewrite map_res_id by (intros x Hx; apply in_sync_fix; apply Hsync; exact Hx).
   eexists; reflexivity.
@@ -1011,43 +1015,43 @@ Proof.
   - apply IHHm; [|exact Hin]. intros s Hs. apply Hnp. right. exact Hs.
 Qed.
 
-Theorem no_dangling_periodic_partial : forall tol P P',
+Theorem old_no_dangling_periodic_partial : forall tol P P',
   (forall s, In s (p_surfs P) -> s_oldper s = 0 /\ s_perptr s = 0) ->
   dedup_old tol P = Ok P' -> forall s', In s' (p_surfs P') -> s_perptr s' = 0.
 Proof.
-  intros tol P P' Hnp Hd s' Hin. apply dedup_inv in Hd. destruct Hd as [del [m [s2 [_ [Hm ->]]]]].
+  intros tol P P' Hnp Hd s' Hin. apply dedup_old_inv in Hd. destruct Hd as [del [m [s2 [_ [Hm ->]]]]].
   simpl in Hin. apply remove_all_incl in Hin. eapply sup_all_perptr0; eauto.
 Qed.
 
 (* ========================================================================= the map, as the cells receive it *)
-Theorem map_justified : forall tol P del m,
+Theorem map_justified_old : forall tol P del m,
   scan_old tol (p_surfs P) = Ok (del, m) ->
   (forall n, In n del <-> lookup n m <> None) /\
   (forall d s, lookup d m = Some s ->
      exists sd ss, In sd (p_surfs P) /\ In ss (p_surfs P) /\ s_num sd = d /\ s_num ss = s /\
                    s_num sd <> s_num ss /\ s_type sd = s_type ss /\ candidate_old tol ss sd = Ok true).
 Proof.
-  intros tol P del m Hs. destruct (scan_inv_basic _ _ _ _ Hs) as [Hk Hj]. split; [exact Hk|].
+  intros tol P del m Hs. destruct (scan_old_inv_basic _ _ _ _ Hs) as [Hk Hj]. split; [exact Hk|].
   intros d s Hl. destruct (Hj d s Hl) as [sd [ss [H1 [H2 [H3 [H4 H5]]]]]].
   exists sd, ss. repeat split; auto.
-  - exact (candidate_num_neq _ _ _ H5).
-  - exact (candidate_type_eq _ _ _ H5).
+  - exact (candidate_old_num_neq _ _ _ H5).
+  - exact (candidate_old_type_eq _ _ _ H5).
 Qed.
 
 (* with a symmetric test a survivor is never removed itself: chains a~b~c need no second pass *)
-Theorem survivors_survive : forall tol P del m,
-  wf P -> cand_sym tol (p_surfs P) -> scan_old tol (p_surfs P) = Ok (del, m) ->
+Theorem survivors_survive_old : forall tol P del m,
+  wf P -> cand_sym_old tol (p_surfs P) -> scan_old tol (p_surfs P) = Ok (del, m) ->
   forall d s, lookup d m = Some s -> ~ In s del.
 Proof.
-  intros tol P del m Hwf Hsym Hs. exact (proj1 (scan_inv_chain _ _ Hwf Hsym _ _ Hs)).
+  intros tol P del m Hwf Hsym Hs. exact (proj1 (scan_old_inv_chain _ _ Hwf Hsym _ _ Hs)).
 Qed.
 
-Theorem no_dangling_leaf_struct : forall tol P P' del m,
+Theorem old_no_dangling_leaf_struct : forall tol P P' del m,
   wf P -> links P -> Forall class_ok (p_surfs P) -> planes_old_nonperiodic (p_surfs P) -> tr_uniform (p_surfs P) ->
   scan_old tol (p_surfs P) = Ok (del, m) -> dedup_old tol P = Ok P' ->
   forall c', In c' (p_cells P') -> forall n, In n (leaf_surfs (c_geom c')) -> ~ In n del.
 Proof.
-  intros tol P P' del m Hwf Hl Hok Hpl Htr. apply no_dangling_leaf; auto. apply cand_sym_struct; assumption.
+  intros tol P P' del m Hwf Hl Hok Hpl Htr. apply no_dangling_leaf_old; auto. apply cand_sym_old_struct; assumption.
 Qed.
 
 (* ========================================================================= witnesses: what the current code gets wrong *)
@@ -1104,14 +1108,14 @@ Proof.
   intros P H. in_cases H; unfold wf; simpl; repeat constructor; simpl; intuition discriminate.
 Qed.
 
-Definition merged_pair (tol : Q) (P : problem) (sd ss : surface) : Prop :=
+Definition merged_pair_old (tol : Q) (P : problem) (sd ss : surface) : Prop :=
   exists del m, scan_old tol (p_surfs P) = Ok (del, m) /\ In sd (p_surfs P) /\ In ss (p_surfs P) /\
                 lookup (s_num sd) m = Some (s_num ss).
 
 (* boundary condition is never compared *)
-Theorem only_true_duplicates_refuted_bc : exists tol P sd ss,
+Theorem old_only_true_duplicates_refuted_bc : exists tol P sd ss,
   wf P /\ Forall class_ok (p_surfs P) /\ Forall periodic_visible (p_surfs P) /\ tr_uniform (p_surfs P) /\
-  merged_pair tol P sd ss /\ s_refl ss <> s_refl sd /\ ~ true_dup tol ss sd.
+  merged_pair_old tol P sd ss /\ s_refl ss <> s_refl sd /\ ~ true_dup tol ss sd.
 Proof.
   exists tol4, w_bc, (w_px 2 0 true 0 0 0 None), (w_px 1 0 false 0 0 0 None).
   split; [apply w_wf; simpl; auto|]. split; [apply w_class_ok; simpl; auto|].
@@ -1121,10 +1125,10 @@ Proof.
 Qed.
 
 (* AxisPlane (and CylinderParAxis) never look at the other surface's periodicity *)
-Theorem only_true_duplicates_refuted_periodic : exists tol P sd ss,
+Theorem old_only_true_duplicates_refuted_periodic : exists tol P sd ss,
   wf P /\ Forall class_ok (p_surfs P) /\ bc_uniform (p_surfs P) /\ tr_uniform (p_surfs P) /\
   (forall s, In s (p_surfs P) -> in_sync (p_surfs P) (p_trs P) s) /\
-  merged_pair tol P sd ss /\ s_perptr sd <> 0 /\ ~ true_dup tol ss sd.
+  merged_pair_old tol P sd ss /\ s_perptr sd <> 0 /\ ~ true_dup tol ss sd.
 Proof.
   exists tol4, w_per, (w_px 2 0 false 4 4 0 None), (w_px 1 0 false 0 0 0 None).
   split; [apply w_wf; simpl; auto|]. split; [apply w_class_ok; simpl; auto|].
@@ -1136,9 +1140,9 @@ Proof.
 Qed.
 
 (* Transform.equivalent ignores the other transform's rotation when self has none *)
-Theorem only_true_duplicates_refuted_rotation : exists tol P sd ss,
+Theorem old_only_true_duplicates_refuted_rotation : exists tol P sd ss,
   wf P /\ Forall class_ok (p_surfs P) /\ bc_uniform (p_surfs P) /\ Forall periodic_visible (p_surfs P) /\
-  merged_pair tol P sd ss /\ ~ trdata_same tol (s_tr ss) (s_tr sd) /\ ~ true_dup tol ss sd.
+  merged_pair_old tol P sd ss /\ ~ trdata_same tol (s_tr ss) (s_tr sd) /\ ~ true_dup tol ss sd.
 Proof.
   exists tol4, w_rot, (w_px 2 0 false 0 0 2 (Some (w_tr_rot 2))), (w_px 1 0 false 0 0 1 (Some (w_tr_plain 1))).
   split; [apply w_wf; simpl; auto|]. split; [apply w_class_ok; simpl; auto|].
@@ -1152,7 +1156,7 @@ Proof.
 Qed.
 
 (* a survivor removed later: a cell is left pointing at a surface that is no longer in the problem *)
-Theorem no_dangling_leaf_refuted : exists tol P P' del m c' n,
+Theorem old_no_dangling_leaf_refuted : exists tol P P' del m c' n,
   wf P /\ links P /\ Forall class_ok (p_surfs P) /\ planes_old_nonperiodic (p_surfs P) /\
   scan_old tol (p_surfs P) = Ok (del, m) /\ dedup_old tol P = Ok P' /\
   In c' (p_cells P') /\ In n (leaf_surfs (c_geom c')) /\ In n del /\ ~ In n (map s_num (p_surfs P')).
@@ -1169,7 +1173,7 @@ Proof.
 Qed.
 
 (* the pointer re-resolution of the call undoes an earlier edit of a surface that is no duplicate *)
-Theorem survivors_untouched_refuted : exists tol P P' m,
+Theorem old_survivors_untouched_refuted : exists tol P P' m,
   wf P /\ Forall class_ok (p_surfs P) /\ scan_old tol (p_surfs P) = Ok ([], m) /\ dedup_old tol P = Ok P' /\
   p_surfs P' <> p_surfs P.
 Proof.
@@ -1180,7 +1184,7 @@ Proof.
 Qed.
 
 (* the surface a periodic surface points to is removed *)
-Theorem no_dangling_periodic_refuted : exists tol P P' s',
+Theorem old_no_dangling_periodic_refuted : exists tol P P' s',
   wf P /\ Forall class_ok (p_surfs P) /\ (forall s, In s (p_surfs P) -> in_sync (p_surfs P) (p_trs P) s) /\
   dedup_old tol P = Ok P' /\ In s' (p_surfs P') /\ s_perptr s' <> 0 /\ ~ In (s_perptr s') (map s_num (p_surfs P')).
 Proof.
@@ -1192,7 +1196,7 @@ Proof.
 Qed.
 
 (* a rotation given by 3 (5, 6) entries against one given by 9: IndexError escapes *)
-Theorem dedup_completes_refuted : exists tol P,
+Theorem old_dedup_completes_refuted : exists tol P,
   wf P /\ Forall class_ok (p_surfs P) /\ (forall s, In s (p_surfs P) -> in_sync (p_surfs P) (p_trs P) s) /\
   dedup_old tol P = Err IndexError.
 Proof.
@@ -1303,7 +1307,7 @@ Definition tol9 : Q := 1 # 1000000000.
 Definition w_twice : problem :=
   mkProb [w_px 1 0 false 0 0 0 None; w_px 2 (5 # 100000) false 0 0 0 None; w_so 3] w_cells [].
 
-Theorem second_call_refuted : exists P P1 P2 c' n,
+Theorem old_second_call_refuted : exists P P1 P2 c' n,
   wf P /\ links P /\ Forall class_ok (p_surfs P) /\ planes_old_nonperiodic (p_surfs P) /\ tr_uniform (p_surfs P) /\
   (forall s, In s (p_surfs P) -> in_sync (p_surfs P) (p_trs P) s) /\
   dedup_old tol9 P = Ok P1 /\ p_surfs P1 = p_surfs P /\ ~ links P1 /\
@@ -1324,21 +1328,21 @@ Proof.
   simpl. intros [H|[H|[]]]; discriminate.
 Qed.
 
-(* ######################################################################### the repaired variant (_fx) *)
+(* ######################################################################### the repaired variant = the code at HEAD *)
 (* ========================================================================= the scan_old over any test *)
 Section ScanG.
   Variable cand : surface -> surface -> res bool.
   Variable all : list surface.
   Hypothesis cand_neq : forall a b, cand a b = Ok true -> s_num b <> s_num a.
 
-  Definition inv_basic_g (del : list Z) (m : list (Z * Z)) : Prop :=
+  Definition inv_basic (del : list Z) (m : list (Z * Z)) : Prop :=
     (forall n, In n del <-> lookup n m <> None) /\
     (forall d s, lookup d m = Some s ->
        exists sd ss, In sd all /\ In ss all /\ s_num sd = d /\ s_num ss = s /\ cand ss sd = Ok true).
 
-  Lemma inv_basic_g_step : forall s ms del m,
-    In s all -> filter_res (cand s) all = Ok ms -> inv_basic_g del m ->
-    inv_basic_g (fst (record_matches (map s_num ms) (s_num s) del m))
+  Lemma inv_basic_step : forall s ms del m,
+    In s all -> filter_res (cand s) all = Ok ms -> inv_basic del m ->
+    inv_basic (fst (record_matches (map s_num ms) (s_num s) del m))
                 (snd (record_matches (map s_num ms) (s_num s) del m)).
   Proof.
     intros s ms del m Hs Hf [Hk Hj]. split.
@@ -1354,8 +1358,8 @@ Section ScanG.
       + apply Hj.
   Qed.
 
-  Lemma scan_loop_g_inv_basic : forall todo del m del' m',
-    incl todo all -> inv_basic_g del m -> scan_loop_g cand all todo del m = Ok (del', m') -> inv_basic_g del' m'.
+  Lemma scan_loop_inv_basic : forall todo del m del' m',
+    incl todo all -> inv_basic del m -> scan_loop_g cand all todo del m = Ok (del', m') -> inv_basic del' m'.
   Proof.
     induction todo as [|s r IH]; intros del m del' m' Hincl Hinv H; simpl in H.
     - inversion H; subst. exact Hinv.
@@ -1365,11 +1369,11 @@ Section ScanG.
       + destruct (filter_res (cand s) all) as [ms|] eqn:Hf; [|discriminate].
         destruct (record_matches (map s_num ms) (s_num s) del m) as [d1 m1] eqn:Hrm.
         eapply IH; [exact Hr | | exact H].
-        pose proof (inv_basic_g_step s ms del m (Hincl s (or_introl eq_refl)) Hf Hinv) as Hstep.
+        pose proof (inv_basic_step s ms del m (Hincl s (or_introl eq_refl)) Hf Hinv) as Hstep.
         rewrite Hrm in Hstep. exact Hstep.
   Qed.
 
-  Definition inv_chain_g (del : list Z) (m : list (Z * Z)) : Prop :=
+  Definition inv_chain (del : list Z) (m : list (Z * Z)) : Prop :=
     (forall d s, lookup d m = Some s -> ~ In s del) /\
     (forall d ss, In ss all -> lookup d m = Some (s_num ss) ->
        forall x, In x all -> cand ss x = Ok true -> In (s_num x) del).
@@ -1377,9 +1381,9 @@ Section ScanG.
   Hypothesis Hnodup : NoDup (map s_num all).
   Hypothesis Hsym : forall a b, In a all -> In b all -> cand a b = Ok true -> cand b a = Ok true.
 
-  Lemma inv_chain_g_step : forall s ms del m,
-    In s all -> ~ In (s_num s) del -> filter_res (cand s) all = Ok ms -> inv_chain_g del m ->
-    inv_chain_g (fst (record_matches (map s_num ms) (s_num s) del m))
+  Lemma inv_chain_step : forall s ms del m,
+    In s all -> ~ In (s_num s) del -> filter_res (cand s) all = Ok ms -> inv_chain del m ->
+    inv_chain (fst (record_matches (map s_num ms) (s_num s) del m))
                 (snd (record_matches (map s_num ms) (s_num s) del m)).
   Proof.
     intros s ms del m Hs Hnd Hf [Hv Hw].
@@ -1403,8 +1407,8 @@ Section ScanG.
       + intros Hl x Hx Hc. apply record_matches_del. left. exact (Hw d ss Hss Hl x Hx Hc).
   Qed.
 
-  Lemma scan_loop_g_inv_chain : forall todo del m del' m',
-    incl todo all -> inv_chain_g del m -> scan_loop_g cand all todo del m = Ok (del', m') -> inv_chain_g del' m'.
+  Lemma scan_loop_inv_chain : forall todo del m del' m',
+    incl todo all -> inv_chain del m -> scan_loop_g cand all todo del m = Ok (del', m') -> inv_chain del' m'.
   Proof.
     induction todo as [|s r IH]; intros del m del' m' Hincl Hinv H; simpl in H.
     - inversion H; subst. exact Hinv.
@@ -1415,7 +1419,7 @@ Section ScanG.
         destruct (record_matches (map s_num ms) (s_num s) del m) as [d1 m1] eqn:Hrm.
         eapply IH; [exact Hr | | exact H].
         apply memZ_false in Hmem.
-        pose proof (inv_chain_g_step s ms del m (Hincl s (or_introl eq_refl)) Hmem Hf Hinv) as Hstep.
+        pose proof (inv_chain_step s ms del m (Hincl s (or_introl eq_refl)) Hmem Hf Hinv) as Hstep.
         rewrite Hrm in Hstep. exact Hstep.
   Qed.
 End ScanG.
@@ -1424,22 +1428,22 @@ End ScanG.
 Definition disp3 (all : list surface) : Prop :=
   forall s t, In s all -> s_tr s = Some t -> List.length (t_disp t) = 3%nat.
 
-Lemma candidate_fx_same_kind : forall tol a b, candidate tol a b = Ok true -> same_kind a b = true.
+Lemma candidate_same_kind : forall tol a b, candidate tol a b = Ok true -> same_kind a b = true.
 Proof.
   intros tol a b. unfold candidate.
   destruct (periodic_now a); [discriminate|].
   destruct (same_kind a b); [reflexivity | simpl; discriminate].
 Qed.
 
-Lemma candidate_fx_num_neq : forall tol a b, candidate tol a b = Ok true -> s_num b <> s_num a.
+Lemma candidate_num_neq : forall tol a b, candidate tol a b = Ok true -> s_num b <> s_num a.
 Proof.
-  intros tol a b H. apply candidate_fx_same_kind in H. unfold same_kind in H.
+  intros tol a b H. apply candidate_same_kind in H. unfold same_kind in H.
   apply andb_true_iff in H. destruct H as [H _]. apply negb_true_iff in H. apply Z.eqb_neq in H. exact H.
 Qed.
 
-Lemma candidate_fx_type_eq : forall tol a b, candidate tol a b = Ok true -> s_type b = s_type a.
+Lemma candidate_type_eq : forall tol a b, candidate tol a b = Ok true -> s_type b = s_type a.
 Proof.
-  intros tol a b H. apply candidate_fx_same_kind in H. unfold same_kind in H.
+  intros tol a b H. apply candidate_same_kind in H. unfold same_kind in H.
   apply andb_true_iff in H. destruct H as [_ H]. apply String.eqb_eq in H. exact H.
 Qed.
 
@@ -1458,7 +1462,7 @@ Proof.
   repeat split; try (apply Z.eqb_eq; assumption); apply Bool.eqb_prop; assumption.
 Qed.
 
-Lemma tr_equiv_fx_sym : forall tol t t',
+Lemma tr_equiv_sym : forall tol t t',
   List.length (t_disp t) = List.length (t_disp t') ->
   tr_equivalent tol t t' = Ok true -> tr_equivalent tol t' t = Ok true.
 Proof.
@@ -1473,7 +1477,7 @@ Proof.
   apply vec_loop_sym; assumption.
 Qed.
 
-Lemma tr_equiv_fx_same : forall tol t t',
+Lemma tr_equiv_same : forall tol t t',
   List.length (t_disp t) = List.length (t_disp t') -> (0 < tol)%Q ->
   tr_equivalent tol t t' = Ok true -> trdata_same tol (Some t) (Some t').
 Proof.
@@ -1492,7 +1496,7 @@ Proof.
     apply vec_loop_within; assumption.
 Qed.
 
-Lemma tr_equiv_fx_total : forall tol t t',
+Lemma tr_equiv_total : forall tol t t',
   List.length (t_disp t) = List.length (t_disp t') -> exists b, tr_equivalent tol t t' = Ok b.
 Proof.
   intros tol t t' Hd. unfold tr_equivalent.
@@ -1508,30 +1512,30 @@ Section Pair.
   Variables a b : surface.
   Hypothesis Hsh : forall t t', s_tr a = Some t -> s_tr b = Some t' -> List.length (t_disp t) = List.length (t_disp t').
 
-  Lemma tr_check_fx_sym : tr_check tol a b = Ok true -> tr_check tol b a = Ok true.
+  Lemma tr_check_sym : tr_check tol a b = Ok true -> tr_check tol b a = Ok true.
   Proof.
     intro H. unfold tr_check in *.
     destruct (s_tr a) as [t|], (s_tr b) as [t'|]; try discriminate; [|reflexivity].
-    apply tr_equiv_fx_sym; auto.
+    apply tr_equiv_sym; auto.
   Qed.
 
-  Lemma tr_check_fx_same : (0 < tol)%Q -> tr_check tol a b = Ok true -> trdata_same tol (s_tr a) (s_tr b).
+  Lemma tr_check_same : (0 < tol)%Q -> tr_check tol a b = Ok true -> trdata_same tol (s_tr a) (s_tr b).
   Proof.
     intros Hpos H. unfold tr_check in H.
     destruct (s_tr a) as [t|], (s_tr b) as [t'|]; try discriminate.
-    - apply tr_equiv_fx_same; auto.
+    - apply tr_equiv_same; auto.
     - exact I.
   Qed.
 
-  Lemma tr_check_fx_total : exists r, tr_check tol a b = Ok r.
+  Lemma tr_check_total : exists r, tr_check tol a b = Ok r.
   Proof.
     unfold tr_check. destruct (s_tr a) as [t|], (s_tr b) as [t'|]; try (eexists; reflexivity).
-    apply tr_equiv_fx_total. apply Hsh; reflexivity.
+    apply tr_equiv_total. apply Hsh; reflexivity.
   Qed.
 
-  Lemma candidate_fx_total : exists r, candidate tol a b = Ok r.
+  Lemma candidate_total : exists r, candidate tol a b = Ok r.
   Proof.
-    unfold candidate. destruct tr_check_fx_total as [r Hr].
+    unfold candidate. destruct tr_check_total as [r Hr].
     destruct (periodic_now a); [eexists; reflexivity|].
     destruct (negb (same_kind a b)); [eexists; reflexivity|].
     destruct (s_class a); try (eexists; reflexivity);
@@ -1542,10 +1546,10 @@ Section Pair.
         [rewrite Hr|]; eexists; reflexivity.
   Qed.
 
-  Lemma candidate_fx_true_dup : class_ok a -> class_ok b -> candidate tol a b = Ok true -> true_dup tol a b.
+  Lemma candidate_true_dup : class_ok a -> class_ok b -> candidate tol a b = Ok true -> true_dup tol a b.
   Proof.
     intros [Hca Haa] [Hcb Hab] H.
-    pose proof (candidate_fx_type_eq _ _ _ H) as Hty. symmetry in Hty.
+    pose proof (candidate_type_eq _ _ _ H) as Hty. symmetry in Hty.
     assert (Hcl : s_class b = s_class a) by (rewrite Hca, Hcb, Hty; reflexivity).
     unfold candidate in H.
     destruct (periodic_now a) eqn:Epa; [discriminate|].
@@ -1559,14 +1563,14 @@ Section Pair.
       destruct (length1 _ Haa) as [x Hx]. destruct (length1 _ Hab) as [y Hy].
       rewrite (cnst_single _ _ Hx), (cnst_single _ _ Hy) in En.
       repeat split; auto.
-      + apply tr_check_fx_same; auto.
+      + apply tr_check_same; auto.
       + rewrite Hx, Hy. constructor; [apply near_lt; exact En | constructor].
     - destruct (near tol (cnst a 0) (cnst b 0)) eqn:En; [|discriminate].
       pose proof (near_tol_pos _ _ _ En) as Hpos.
       destruct (length1 _ Haa) as [x Hx]. destruct (length1 _ Hab) as [y Hy].
       rewrite (cnst_single _ _ Hx), (cnst_single _ _ Hy) in En.
       repeat split; auto.
-      + apply tr_check_fx_same; auto.
+      + apply tr_check_same; auto.
       + rewrite Hx, Hy. constructor; [apply near_lt; exact En | constructor].
     - destruct (near tol (cnst a 2) (cnst b 2) && near tol (cnst a 0) (cnst b 0) && near tol (cnst a 1) (cnst b 1))
         eqn:En; [|discriminate].
@@ -1575,14 +1579,14 @@ Section Pair.
       destruct (length3 _ Haa) as [x0 [x1 [x2 Hx]]]. destruct (length3 _ Hab) as [y0 [y1 [y2 Hy]]].
       unfold cnst in E0, E1, E2. rewrite Hx, Hy in E0, E1, E2. simpl in E0, E1, E2.
       repeat split; auto.
-      + apply tr_check_fx_same; auto.
+      + apply tr_check_same; auto.
       + rewrite Hx, Hy. repeat constructor; apply near_lt; assumption.
   Qed.
 
-  Lemma candidate_fx_sym1 : class_ok a -> class_ok b -> candidate tol a b = Ok true -> candidate tol b a = Ok true.
+  Lemma candidate_sym1 : class_ok a -> class_ok b -> candidate tol a b = Ok true -> candidate tol b a = Ok true.
   Proof.
     intros [Hca _] [Hcb _] H.
-    pose proof (candidate_fx_type_eq _ _ _ H) as Hty.
+    pose proof (candidate_type_eq _ _ _ H) as Hty.
     assert (Hcl : s_class b = s_class a) by (rewrite Hca, Hcb, Hty; reflexivity).
     unfold candidate in *.
     destruct (periodic_now a) eqn:Epa; [discriminate|].
@@ -1593,13 +1597,13 @@ Section Pair.
       destruct (may_merge_spec _ _ Emm) as [_ [Hp2 _]];
       assert (Epb : periodic_now b = false) by (unfold periodic_now; rewrite Hp2; reflexivity); rewrite Epb.
     - rewrite (near_sym tol (cnst b 0)).
-      destruct (near tol (cnst a 0) (cnst b 0)); [|discriminate]. apply tr_check_fx_sym; assumption.
+      destruct (near tol (cnst a 0) (cnst b 0)); [|discriminate]. apply tr_check_sym; assumption.
     - rewrite (near_sym tol (cnst b 0)).
-      destruct (near tol (cnst a 0) (cnst b 0)); [|discriminate]. apply tr_check_fx_sym; assumption.
+      destruct (near tol (cnst a 0) (cnst b 0)); [|discriminate]. apply tr_check_sym; assumption.
     - rewrite (near_sym tol (cnst b 2)), (near_sym tol (cnst b 0)), (near_sym tol (cnst b 1)).
       destruct (near tol (cnst a 2) (cnst b 2) && near tol (cnst a 0) (cnst b 0) && near tol (cnst a 1) (cnst b 1));
         [|discriminate].
-      apply tr_check_fx_sym; assumption.
+      apply tr_check_sym; assumption.
   Qed.
 End Pair.
 
@@ -1613,7 +1617,7 @@ Definition sa_step (nd : list (Z * Z)) (acc : list Z) (n : Z) : list Z :=
 Definition loop_step (acc : list Z) (kv : Z * Z) : list Z :=
   let acc' := remove_first (fst kv) acc in if memZ (snd kv) acc' then acc' else (acc' ++ [snd kv])%list.
 
-Lemma surfs_after_fx_unfold : forall nd g cs,
+Lemma surfs_after_unfold : forall nd g cs,
   surfs_after nd g cs = fold_left loop_step nd (fold_left (sa_step nd) (leaf_surfs g) cs).
 Proof. reflexivity. Qed.
 
@@ -1714,13 +1718,13 @@ Proof.
   destruct H as [H|H]; [inversion H; subst; rewrite Z.eqb_refl in E; discriminate | eapply IH; exact H].
 Qed.
 
-Lemma cell_dedup_fx_num : forall m c, c_num (cell_dedup m c) = c_num c.
+Lemma cell_dedup_num : forall m c, c_num (cell_dedup m c) = c_num c.
 Proof. intros m c. unfold cell_dedup. destruct (restrict (c_surfs c) m); reflexivity. Qed.
 
-Lemma cell_dedup_fx_geom : forall m c, c_geom (cell_dedup m c) = c_geom (cell_dedup_old m c).
+Lemma cell_dedup_geom : forall m c, c_geom (cell_dedup m c) = c_geom (cell_dedup_old m c).
 Proof. intros m c. unfold cell_dedup, cell_dedup_old. destruct (restrict (c_surfs c) m); reflexivity. Qed.
 
-Lemma cell_dedup_fx_links : forall m c,
+Lemma cell_dedup_links : forall m c,
   (forall d s, lookup d m = Some s -> lookup s m = None) ->
   incl (leaf_surfs (c_geom c)) (c_surfs c) ->
   incl (leaf_surfs (c_geom (cell_dedup m c))) (c_surfs (cell_dedup m c)).
@@ -1728,7 +1732,7 @@ Proof.
   intros m c Hsurv Hl. unfold cell_dedup.
   destruct (restrict (c_surfs c) m) as [|kv0 nd0] eqn:Hr; [exact Hl|].
   set (nd := kv0 :: nd0) in *. simpl c_geom. simpl c_surfs.
-  rewrite hs_dedup_spec, leaf_surfs_map_leaves, surfs_after_fx_unfold.
+  rewrite hs_dedup_spec, leaf_surfs_map_leaves, surfs_after_unfold.
   intros x Hx. apply in_map_iff in Hx. destruct Hx as [n [Hx Hn]].
   assert (Hnc : In n (c_surfs c)) by (apply Hl; exact Hn).
   assert (Hnd : forall k, lookup k nd = if memZ k (c_surfs c) then lookup k m else None).
@@ -1753,33 +1757,33 @@ Definition disp_uniform (all : list surface) : Prop :=
 Lemma disp3_uniform : forall all, disp3 all -> disp_uniform all.
 Proof. intros all H a b t t' Ha Hb H1 H2. rewrite (H a t Ha H1), (H b t' Hb H2). reflexivity. Qed.
 
-Lemma scan_fx_inv_basic : forall tol all del m,
-  scan tol all = Ok (del, m) -> inv_basic_g (candidate tol) all del m.
+Lemma scan_inv_basic : forall tol all del m,
+  scan tol all = Ok (del, m) -> inv_basic (candidate tol) all del m.
 Proof.
   intros tol all del m H. unfold scan in H.
-  eapply scan_loop_g_inv_basic; [apply incl_refl | | exact H].
+  eapply scan_loop_inv_basic; [apply incl_refl | | exact H].
   split; [intro n; simpl; split; [tauto | intro H0; apply H0; reflexivity] | intros d s H0; discriminate].
 Qed.
 
-Lemma cand_fx_sym : forall tol all,
+Lemma cand_sym : forall tol all,
   Forall class_ok all -> disp_uniform all ->
   forall a b, In a all -> In b all -> candidate tol a b = Ok true -> candidate tol b a = Ok true.
 Proof.
   intros tol all Hok Hd a b Ha Hb H. rewrite Forall_forall in Hok.
-  apply candidate_fx_sym1; auto. intros t t' H1 H2. exact (Hd a b t t' Ha Hb H1 H2).
+  apply candidate_sym1; auto. intros t t' H1 H2. exact (Hd a b t t' Ha Hb H1 H2).
 Qed.
 
-Lemma scan_fx_inv_chain : forall tol all del m,
+Lemma scan_inv_chain : forall tol all del m,
   NoDup (map s_num all) -> Forall class_ok all -> disp_uniform all ->
-  scan tol all = Ok (del, m) -> inv_chain_g (candidate tol) all del m.
+  scan tol all = Ok (del, m) -> inv_chain (candidate tol) all del m.
 Proof.
   intros tol all del m Hnd Hok Hd H. unfold scan in H.
-  eapply scan_loop_g_inv_chain; [exact (candidate_fx_num_neq tol) | exact Hnd | apply cand_fx_sym; assumption
+  eapply scan_loop_inv_chain; [exact (candidate_num_neq tol) | exact Hnd | apply cand_sym; assumption
                                 | apply incl_refl | | exact H].
   split; [intros d s H0; discriminate | intros d ss _ H0; discriminate].
 Qed.
 
-Lemma scan_loop_g_total : forall cand all todo del m,
+Lemma scan_loop_total : forall cand all todo del m,
   (forall s x, In s all -> In x all -> exists r, cand s x = Ok r) ->
   incl todo all -> exists r, scan_loop_g cand all todo del m = Ok r.
 Proof.
@@ -1792,13 +1796,13 @@ Proof.
   destruct (record_matches (map s_num ms) (s_num s) del m) as [d1 m1]. apply IH; assumption.
 Qed.
 
-Lemma scan_fx_total : forall tol all, disp_uniform all -> exists r, scan tol all = Ok r.
+Lemma scan_total : forall tol all, disp_uniform all -> exists r, scan tol all = Ok r.
 Proof.
-  intros tol all Hd. unfold scan. apply scan_loop_g_total; [|apply incl_refl].
-  intros s x Hs Hx. apply candidate_fx_total. intros t t' H1 H2. exact (Hd s x t t' Hs Hx H1 H2).
+  intros tol all Hd. unfold scan. apply scan_loop_total; [|apply incl_refl].
+  intros s x Hs Hx. apply candidate_total. intros t t' H1 H2. exact (Hd s x t t' Hs Hx H1 H2).
 Qed.
 
-Lemma dedup_fx_inv : forall tol P P',
+Lemma dedup_inv : forall tol P P',
   dedup tol P = Ok P' ->
   exists del m, scan tol (p_surfs P) = Ok (del, m) /\
     P' = mkProb (remove_all del (map (repoint_periodic m) (p_surfs P))) (map (cell_dedup m) (p_cells P)) (p_trs P).
@@ -1832,23 +1836,23 @@ Proof.
 Qed.
 
 (* --- only true duplicates are merged: no side condition on boundary conditions, periodicity or rotations *)
-Theorem fx_only_true_duplicates : forall tol P del m,
+Theorem only_true_duplicates : forall tol P del m,
   wf P -> Forall class_ok (p_surfs P) -> disp_uniform (p_surfs P) ->
   scan tol (p_surfs P) = Ok (del, m) ->
   forall d s sd ss, lookup d m = Some s ->
     In sd (p_surfs P) -> In ss (p_surfs P) -> s_num sd = d -> s_num ss = s -> true_dup tol ss sd.
 Proof.
   intros tol P del m Hwf Hok Hdu Hs d s sd ss Hl Hsd Hss Hd Hn.
-  destruct (scan_fx_inv_basic _ _ _ _ Hs) as [_ Hj].
+  destruct (scan_inv_basic _ _ _ _ Hs) as [_ Hj].
   destruct (Hj d s Hl) as [sd' [ss' [Hsd' [Hss' [Hd' [Hn' Hc]]]]]].
   assert (sd' = sd) by (apply (same_num_same_surface (p_surfs P) Hwf); auto; congruence).
   assert (ss' = ss) by (apply (same_num_same_surface (p_surfs P) Hwf); auto; congruence).
   subst sd' ss'. rewrite Forall_forall in Hok.
-  apply candidate_fx_true_dup; auto.
+  apply candidate_true_dup; auto.
   intros t t' H1 H2. exact (Hdu ss sd t t' Hss Hsd H1 H2).
 Qed.
 
-Theorem fx_cells_structure : forall tol P P' del m,
+Theorem cells_structure : forall tol P P' del m,
   scan tol (p_surfs P) = Ok (del, m) -> dedup tol P = Ok P' ->
   Forall2 (fun c c' =>
              c_num c' = c_num c /\
@@ -1858,25 +1862,25 @@ Theorem fx_cells_structure : forall tol P P' del m,
                        c_geom c' = map_leaves f (c_geom c))
           (p_cells P) (p_cells P').
 Proof.
-  intros tol P P' del m Hs Hd. apply dedup_fx_inv in Hd. destruct Hd as [del' [m' [Hs' ->]]].
+  intros tol P P' del m Hs Hd. apply dedup_inv in Hd. destruct Hd as [del' [m' [Hs' ->]]].
   rewrite Hs in Hs'. inversion Hs'; subst del' m'. simpl.
   apply Forall2_map_both. intros c _. split.
-  - apply cell_dedup_fx_num.
+  - apply cell_dedup_num.
   - exists (cell_ren m c). repeat split.
     + apply cell_ren_not_key.
     + apply cell_ren_cases.
     + apply cell_ren_linked.
-    + rewrite cell_dedup_fx_geom. apply cell_dedup_geom.
+    + rewrite cell_dedup_geom. apply cell_dedup_old_geom.
 Qed.
 
-Theorem fx_region : forall tol P P' del m,
+Theorem region_preserved : forall tol P P' del m,
   scan tol (p_surfs P) = Ok (del, m) -> dedup tol P = Ok P' ->
   Forall2 (fun c c' =>
              c_num c' = c_num c /\ shape (c_geom c') = shape (c_geom c) /\
              forall es ec, identifies m es -> region es ec (c_geom c') = region es ec (c_geom c))
           (p_cells P) (p_cells P').
 Proof.
-  intros tol P P' del m Hs Hd. pose proof (fx_cells_structure _ _ _ _ _ Hs Hd) as H.
+  intros tol P P' del m Hs Hd. pose proof (cells_structure _ _ _ _ _ Hs Hd) as H.
   eapply Forall2_imp; [|exact H]. intros c c' [Hn [f [_ [Hc [_ Hg]]]]]. split; [exact Hn|]. split.
   - rewrite Hg. apply shape_map_leaves.
   - intros es ec Hid. rewrite Hg, region_map_leaves. apply region_ext. intros n _.
@@ -1884,27 +1888,27 @@ Proof.
 Qed.
 
 (* survivors are never keys of the map *)
-Lemma fx_survivors_not_keys : forall tol P del m,
+Lemma survivors_not_keys : forall tol P del m,
   wf P -> Forall class_ok (p_surfs P) -> disp_uniform (p_surfs P) ->
   scan tol (p_surfs P) = Ok (del, m) ->
   forall d s, lookup d m = Some s -> lookup s m = None.
 Proof.
   intros tol P del m Hwf Hok Hdu Hs d s Hl.
-  destruct (scan_fx_inv_basic _ _ _ _ Hs) as [Hk _].
-  destruct (scan_fx_inv_chain _ _ _ _ Hwf Hok Hdu Hs) as [Hv _].
+  destruct (scan_inv_basic _ _ _ _ Hs) as [Hk _].
+  destruct (scan_inv_chain _ _ _ _ Hwf Hok Hdu Hs) as [Hv _].
   destruct (lookup s m) eqn:E; [|reflexivity].
   exfalso. apply (Hv _ _ Hl). apply Hk. congruence.
 Qed.
 
 (* --- the surfaces: removed ones are gone, the others are untouched except a periodic pointer that followed
        its partner to the survivor *)
-Theorem fx_surfaces : forall tol P P' del m,
+Theorem surfaces_after_call : forall tol P P' del m,
   wf P -> scan tol (p_surfs P) = Ok (del, m) -> dedup tol P = Ok P' ->
   p_surfs P' = filter (fun s => negb (memZ (s_num s) del)) (map (repoint_periodic m) (p_surfs P)) /\
   (forall s, s_perptr s = 0 \/ lookup (s_perptr s) m = None -> repoint_periodic m s = s) /\
   map s_num (p_surfs P') = filter (fun n => negb (memZ n del)) (map s_num (p_surfs P)).
 Proof.
-  intros tol P P' del m Hwf Hs Hd. apply dedup_fx_inv in Hd. destruct Hd as [del' [m' [Hs' ->]]].
+  intros tol P P' del m Hwf Hs Hd. apply dedup_inv in Hd. destruct Hd as [del' [m' [Hs' ->]]].
   rewrite Hs in Hs'. inversion Hs'; subst del' m'. simpl.
   assert (Hnd : NoDup (map s_num (map (repoint_periodic m) (p_surfs P)))) by (rewrite repoint_nums; exact Hwf).
   rewrite remove_all_filter by exact Hnd. split; [reflexivity|]. split; [apply repoint_id|].
@@ -1914,21 +1918,21 @@ Proof.
 Qed.
 
 (* --- no leaf refers to a removed surface, and cell.surfaces keeps covering the leaves: the call can be repeated *)
-Theorem fx_no_dangling_leaf : forall tol P P' del m,
+Theorem no_dangling_leaf : forall tol P P' del m,
   wf P -> links P -> Forall class_ok (p_surfs P) -> disp_uniform (p_surfs P) ->
   scan tol (p_surfs P) = Ok (del, m) -> dedup tol P = Ok P' ->
   links P' /\
   forall c', In c' (p_cells P') -> forall n, In n (leaf_surfs (c_geom c')) -> ~ In n del.
 Proof.
   intros tol P P' del m Hwf Hl Hok Hdu Hs Hd.
-  pose proof (fx_survivors_not_keys _ _ _ _ Hwf Hok Hdu Hs) as Hsurv.
-  destruct (scan_fx_inv_basic _ _ _ _ Hs) as [Hk _].
-  apply dedup_fx_inv in Hd. destruct Hd as [del' [m' [Hs' ->]]].
+  pose proof (survivors_not_keys _ _ _ _ Hwf Hok Hdu Hs) as Hsurv.
+  destruct (scan_inv_basic _ _ _ _ Hs) as [Hk _].
+  apply dedup_inv in Hd. destruct Hd as [del' [m' [Hs' ->]]].
   rewrite Hs in Hs'. inversion Hs'; subst del' m'. simpl. split.
   - intros c' Hc'. simpl in Hc'. apply in_map_iff in Hc'. destruct Hc' as [c [<- Hc]].
-    apply cell_dedup_fx_links; [exact Hsurv | apply Hl; exact Hc].
+    apply cell_dedup_links; [exact Hsurv | apply Hl; exact Hc].
   - intros c' Hc' n Hn. apply in_map_iff in Hc'. destruct Hc' as [c [<- Hc]].
-    rewrite cell_dedup_fx_geom, cell_dedup_geom, leaf_surfs_map_leaves in Hn. apply in_map_iff in Hn. destruct Hn as [n0 [E Hn0]].
+    rewrite cell_dedup_geom, cell_dedup_old_geom, leaf_surfs_map_leaves in Hn. apply in_map_iff in Hn. destruct Hn as [n0 [E Hn0]].
     assert (Hin : In n0 (c_surfs c)) by (apply (Hl c Hc); exact Hn0).
     rewrite (cell_ren_linked m c n0 Hin) in E. unfold ren in E. destruct (lookup n0 m) eqn:El.
     + subst z. intro Hd'. apply Hk in Hd'. apply Hd'. eapply Hsurv. exact El.
@@ -1936,16 +1940,16 @@ Proof.
 Qed.
 
 (* --- no periodic pointer to a removed surface *)
-Theorem fx_no_dangling_periodic : forall tol P P' del m,
+Theorem no_dangling_periodic : forall tol P P' del m,
   wf P -> Forall class_ok (p_surfs P) -> disp_uniform (p_surfs P) ->
   (forall s, In s (p_surfs P) -> s_perptr s = 0 \/ In (s_perptr s) (map s_num (p_surfs P))) ->
   scan tol (p_surfs P) = Ok (del, m) -> dedup tol P = Ok P' ->
   forall s', In s' (p_surfs P') -> s_perptr s' = 0 \/ In (s_perptr s') (map s_num (p_surfs P')).
 Proof.
   intros tol P P' del m Hwf Hok Hdu Hper Hs Hd s' Hin.
-  pose proof (fx_survivors_not_keys _ _ _ _ Hwf Hok Hdu Hs) as Hsurv.
-  destruct (scan_fx_inv_basic _ _ _ _ Hs) as [Hk Hj].
-  destruct (fx_surfaces _ _ _ _ _ Hwf Hs Hd) as [Hsf [_ Hnums]].
+  pose proof (survivors_not_keys _ _ _ _ Hwf Hok Hdu Hs) as Hsurv.
+  destruct (scan_inv_basic _ _ _ _ Hs) as [Hk Hj].
+  destruct (surfaces_after_call _ _ _ _ _ Hwf Hs Hd) as [Hsf [_ Hnums]].
   rewrite Hnums. rewrite Hsf in Hin. apply filter_In in Hin. destruct Hin as [Hin _].
   apply in_map_iff in Hin. destruct Hin as [s [<- Hs0]].
   rewrite repoint_perptr. destruct (Z.eqb (s_perptr s) 0) eqn:E0; [left; reflexivity|]. right.
@@ -1958,13 +1962,13 @@ Proof.
 Qed.
 
 (* --- the call returns *)
-Theorem fx_completes : forall tol P, disp_uniform (p_surfs P) -> exists P', dedup tol P = Ok P'.
+Theorem dedup_completes : forall tol P, disp_uniform (p_surfs P) -> exists P', dedup tol P = Ok P'.
 Proof.
-  intros tol P Hd. unfold dedup. destruct (scan_fx_total tol _ Hd) as [[del m] Hs]. rewrite Hs.
+  intros tol P Hd. unfold dedup. destruct (scan_total tol _ Hd) as [[del m] Hs]. rewrite Hs.
   eexists; reflexivity.
 Qed.
 
-Lemma fx_witnesses :
+Lemma repaired_witnesses :
   scan tol4 (p_surfs w_bc) = Ok ([], []) /\ scan tol4 (p_surfs w_per) = Ok ([], []) /\
   scan tol4 (p_surfs w_rot) = Ok ([], []) /\ scan tol4 (p_surfs w_dangle) = Ok ([2], [(2, 1)]) /\
   dedup tol4 w_revert = Ok w_revert /\ scan tol4 (p_surfs w_index) = Ok ([], []) /\
@@ -1979,60 +1983,60 @@ Proof.
 Qed.
 
 (* ========================================================================= data-block cell modifier cards *)
-Theorem cellmod_always_fails : forall tol P r,
+Theorem old_cellmod_always_fails : forall tol P r,
   scan_old tol (p_surfs P) = Ok r -> dedup_call_old true tol P = Err MalformedInputError.
 Proof. intros tol P r H. unfold dedup_call_old. rewrite H. reflexivity. Qed.
 
-Theorem no_cellmod_same : forall tol P, dedup_call_old false tol P = dedup_old tol P.
+Theorem old_no_cellmod_same : forall tol P, dedup_call_old false tol P = dedup_old tol P.
 Proof.
   intros tol P. unfold dedup_call_old, dedup_old. destruct (scan_old tol (p_surfs P)) as [[del m]|]; reflexivity.
 Qed.
 
 (* ========================================================================= more about the call at HEAD *)
-Theorem fx_map_justified : forall tol P del m,
+Theorem map_justified : forall tol P del m,
   scan tol (p_surfs P) = Ok (del, m) ->
   (forall n, In n del <-> lookup n m <> None) /\
   (forall d s, lookup d m = Some s ->
      exists sd ss, In sd (p_surfs P) /\ In ss (p_surfs P) /\ s_num sd = d /\ s_num ss = s /\
                    s_num sd <> s_num ss /\ s_type sd = s_type ss /\ candidate tol ss sd = Ok true).
 Proof.
-  intros tol P del m Hs. destruct (scan_fx_inv_basic _ _ _ _ Hs) as [Hk Hj]. split; [exact Hk|].
+  intros tol P del m Hs. destruct (scan_inv_basic _ _ _ _ Hs) as [Hk Hj]. split; [exact Hk|].
   intros d s Hl. destruct (Hj d s Hl) as [sd [ss [H1 [H2 [H3 [H4 H5]]]]]].
   exists sd, ss. repeat split; auto.
-  - exact (candidate_fx_num_neq _ _ _ H5).
-  - exact (candidate_fx_type_eq _ _ _ H5).
+  - exact (candidate_num_neq _ _ _ H5).
+  - exact (candidate_type_eq _ _ _ H5).
 Qed.
 
-Theorem fx_survivors_survive : forall tol P del m,
+Theorem survivors_survive : forall tol P del m,
   wf P -> Forall class_ok (p_surfs P) -> disp_uniform (p_surfs P) ->
   scan tol (p_surfs P) = Ok (del, m) ->
   forall d s, lookup d m = Some s -> ~ In s del /\ lookup s m = None.
 Proof.
   intros tol P del m Hwf Hok Hdu Hs d s Hl.
-  pose proof (fx_survivors_not_keys _ _ _ _ Hwf Hok Hdu Hs _ _ Hl) as Hn. split; [|exact Hn].
-  destruct (scan_fx_inv_basic _ _ _ _ Hs) as [Hk _]. intro Hd. apply Hk in Hd. exact (Hd Hn).
+  pose proof (survivors_not_keys _ _ _ _ Hwf Hok Hdu Hs _ _ Hl) as Hn. split; [|exact Hn].
+  destruct (scan_inv_basic _ _ _ _ Hs) as [Hk _]. intro Hd. apply Hk in Hd. exact (Hd Hn).
 Qed.
 
-Theorem fx_senses : forall tol P P' del m,
+Theorem senses_preserved : forall tol P P' del m,
   scan tol (p_surfs P) = Ok (del, m) -> dedup tol P = Ok P' ->
   Forall2 (fun c c' =>
              shape (c_geom c') = shape (c_geom c) /\
              ((forall n, In n (leaf_surfs (c_geom c)) -> ~ In n del) -> c_geom c' = c_geom c))
           (p_cells P) (p_cells P').
 Proof.
-  intros tol P P' del m Hs Hd. pose proof (fx_cells_structure _ _ _ _ _ Hs Hd) as H.
-  destruct (scan_fx_inv_basic _ _ _ _ Hs) as [Hk _].
+  intros tol P P' del m Hs Hd. pose proof (cells_structure _ _ _ _ _ Hs Hd) as H.
+  destruct (scan_inv_basic _ _ _ _ Hs) as [Hk _].
   eapply Forall2_imp; [|exact H]. intros c c' [Hn [f [Hnk [_ [_ Hg]]]]]. split.
   - rewrite Hg. apply shape_map_leaves.
   - intro Hno. rewrite Hg. apply map_leaves_id. intros n Hin. apply Hnk.
     destruct (lookup n m) eqn:E; [|reflexivity]. exfalso. apply (Hno n Hin). apply Hk. congruence.
 Qed.
 
-Theorem fx_removed_are_gone : forall tol P P' del m,
+Theorem removed_are_gone : forall tol P P' del m,
   wf P -> scan tol (p_surfs P) = Ok (del, m) -> dedup tol P = Ok P' ->
   forall s', In s' (p_surfs P') -> ~ In (s_num s') del.
 Proof.
-  intros tol P P' del m Hwf Hs Hd s' Hin. destruct (fx_surfaces _ _ _ _ _ Hwf Hs Hd) as [Hsf _].
+  intros tol P P' del m Hwf Hs Hd s' Hin. destruct (surfaces_after_call _ _ _ _ _ Hwf Hs Hd) as [Hsf _].
   rewrite Hsf in Hin. apply filter_In in Hin. destruct Hin as [_ Hin].
   apply negb_true_iff in Hin. apply memZ_false in Hin. exact Hin.
 Qed.
@@ -2047,14 +2051,14 @@ Proof.
 Qed.
 
 (* the hypotheses of the theorems hold again after the call: it can be repeated *)
-Theorem fx_invariants_kept : forall tol P P' del m,
+Theorem invariants_kept : forall tol P P' del m,
   wf P -> links P -> Forall class_ok (p_surfs P) -> disp_uniform (p_surfs P) ->
   scan tol (p_surfs P) = Ok (del, m) -> dedup tol P = Ok P' ->
   wf P' /\ links P' /\ Forall class_ok (p_surfs P') /\ disp_uniform (p_surfs P').
 Proof.
   intros tol P P' del m Hwf Hl Hok Hdu Hs Hd.
-  destruct (fx_surfaces _ _ _ _ _ Hwf Hs Hd) as [Hsf [_ Hnums]].
-  destruct (fx_no_dangling_leaf _ _ _ _ _ Hwf Hl Hok Hdu Hs Hd) as [Hl' _].
+  destruct (surfaces_after_call _ _ _ _ _ Hwf Hs Hd) as [Hsf [_ Hnums]].
+  destruct (no_dangling_leaf _ _ _ _ _ Hwf Hl Hok Hdu Hs Hd) as [Hl' _].
   assert (Hsrc : forall s', In s' (p_surfs P') -> exists s, In s (p_surfs P) /\ s' = repoint_periodic m s).
   { intros s' Hin. rewrite Hsf in Hin. apply filter_In in Hin. destruct Hin as [Hin _].
     apply in_map_iff in Hin. destruct Hin as [s [<- Hin]]. exists s. auto. }
@@ -2070,7 +2074,7 @@ Qed.
 
 (* a non-trivial state satisfying every hypothesis: the example problem *)
 Lemma ex_disp_uniform : disp_uniform (p_surfs ex_prob).
-Proof. exact (proj1 (proj2 (proj2 (proj2 (proj2 (proj2 (proj2 fx_witnesses))))))). Qed.
+Proof. exact (proj1 (proj2 (proj2 (proj2 (proj2 (proj2 (proj2 (proj2 repaired_witnesses)))))))). Qed.
 
 Lemma ex_scan_head : scan tol4 (p_surfs ex_prob) = Ok (ex_del, ex_map).
 Proof. vm_compute. reflexivity. Qed.
